@@ -346,3 +346,16 @@ M("dm14_error_text_dropped", ["C18"], "client exception lacks the ErrorInfo text
   ("j1939/Dm14Query.py", "f\"Device {hex(sa)} error: {hex(error)} {j1939.ErrorInfo[error]} edcp: {hex(edcp)}\"", "f\"Device {hex(sa)} error: {hex(error)} edcp: {hex(edcp)}\""))
 M("dm14_proceed_before_key", ["C18"], "proceed callback consulted before the key is verified",
   ("j1939/memory_access.py", "                            if self.server.verify_key(\n                                self.server.seed, self.server.key\n                            ):", "                            if (self._proceed_function is not None and self._proceed_function(self.server.command, 0, 0, 0, 0, 0, 0, 0, 0) or True) and self.server.verify_key(\n                                self.server.seed, self.server.key\n                            ):"))
+
+M("dm14_requester_check_dropped", ["C19"], "server does not compare the requester's source address",
+  ("j1939/Dm14Server.py", "            (self.sa is not None and sa != self.sa)\n            or (", "            (False)\n            or ("))
+M("dm14_pointer_check_dropped", ["C19"], "server does not compare the pointer of a running transaction",
+  ("j1939/Dm14Server.py", "                self.address is not None and self.address != data[2 : (self.length - 2)]", "                False"))
+M("dm14_busy_answer_to_running_client", ["C19"], "busy DM15 addressed to the running requester instead of the sender",
+  ("j1939/Dm14Server.py", "                data[0],\n                sa,\n                j1939.ParameterGroupNumber.PGN.DM15,\n                self.error if self.error != 0x00 else 0x2,", "                data[0],\n                self.sa if self.sa is not None else sa,\n                j1939.ParameterGroupNumber.PGN.DM15,\n                self.error if self.error != 0x00 else 0x2,"))
+M("dm14_busy_answer_proceed_status", ["C19"], "busy answer carries status 'proceed'",
+  ("j1939/Dm14Server.py", "                data[1] >> 4,\n                j1939.Dm15Status.OPERATION_FAILED.value,\n                j1939.ResponseState.SEND_ERROR,", "                data[1] >> 4,\n                j1939.Dm15Status.PROCEED.value,\n                j1939.ResponseState.SEND_PROCEED,"))
+M("dm14_intruder_resets_server", ["C19"], "a busy answer resets the running transaction's requester",
+  ("j1939/Dm14Server.py", "            self.set_busy(False)\n            return\n\n        self.length = len(data)", "            self.set_busy(False)\n            self.sa = None\n            return\n\n        self.length = len(data)"))
+M("dm14_wait_complete_any_sender", ["C19"], "closing DM14 accepted from any sender",
+  ("j1939/Dm14Server.py", "            (self.sa is not None and sa != self.sa)\n            or (", "            (self.sa is not None and sa != self.sa and self.state != ResponseState.WAIT_OPERATION_COMPLETE)\n            or ("))
